@@ -86,8 +86,8 @@ func absServer(conc *abs.Conc, m mocrelay.ServerMsg, evOf func(string) (abs.Even
 		a["sub"] = m.SubscriptionID
 		l := conc.Label(m.Event.ID)
 		a["id"] = l
-		a["ts"] = m.Event.CreatedAt
-		if e, ok := evOf(l); ok && e.TS == m.Event.CreatedAt && e.Kind == m.Event.Kind && conc.Pubkey(e.Author) == m.Event.Pubkey {
+		a["ts"] = abs.AbsTS(m.Event.CreatedAt)
+		if e, ok := evOf(l); ok && abs.TS(e.TS) == m.Event.CreatedAt && e.Kind == m.Event.Kind && conc.Pubkey(e.Author) == m.Event.Pubkey {
 			a["ev"] = e
 		} else {
 			a["ev"] = abs.Event{ID: "?changed", Author: "-", Kind: m.Event.Kind, TS: m.Event.CreatedAt}
@@ -293,6 +293,9 @@ func runMergeScenario(run *core.Run, seed int64, nChildren int, what string) (tv
 	var pool []abs.Event
 	for i := 0; i < 4; i++ {
 		e := abs.Event{ID: fmt.Sprintf("m%d", i+1), Author: []string{"a", "b"}[r.Intn(2)], Kind: int64(1 + r.Intn(2)), TS: int64(1 + r.Intn(4))}
+		if i == 3 && r.Intn(3) == 0 {
+			e.TS = -1000000 // the oldest possible created_at
+		}
 		pool = append(pool, e)
 		evOf[e.ID] = e
 	}
@@ -454,6 +457,9 @@ func runMergeScenario(run *core.Run, seed int64, nChildren int, what string) (tv
 			if r.Intn(3) != 0 {
 				e := pool[r.Intn(3)] // few ids: repeats in flight
 				stuck = !offer(&mocrelay.ClientEventMsg{Event: conc.Event(e, "x")})
+			} else if r.Intn(4) == 0 {
+				// a CLOSE that carries the id of a COUNT possibly still in flight
+				stuck = !offer(&mocrelay.ClientCloseMsg{SubscriptionID: fmt.Sprintf("c%d", r.Intn(2))})
 			} else {
 				s := fmt.Sprintf("c%d", r.Intn(2))
 				stuck = !offer(&mocrelay.ClientCountMsg{SubscriptionID: s, ReqFilters: conc.Filters([]abs.Filter{{}})})
